@@ -295,6 +295,24 @@ def runPhases (c : Cfg) (done : Nat → Bool) : List KPhase → Nat → Tick →
 def killerPlan (c : Cfg) (r : Reason) (start : Tick) (done : Nat → Bool) : List (Tick × Reason) :=
   (start, r) :: runPhases c done killerPhases 0 start
 
+/-! ### The daemon killer's loop over a live dict (finding F11) -/
+
+inductive IterRes where
+  | finished | raised
+  deriving DecidableEq, Repr
+
+/-- CPython's dict-view iterator is created when the dict has `size0` entries; every `next()` first
+    compares the current size with `size0` and raises RuntimeError when they differ. In
+    `daemon_killer`, between two `next()` calls over `memory.running_daemons.values()` there is an
+    `await scheduler.spawn(...)`: other tasks run, and stopped daemons erase their own entries.
+    `sizes` = the dict's size at each successive `next()` (chosen by the environment). -/
+def iterLive (size0 : Nat) : Nat → List Nat → IterRes
+  | _, [] => .finished
+  | pos, sz :: rest =>
+    if sz ≠ size0 then .raised
+    else if size0 ≤ pos then .finished
+    else iterLive size0 (pos + 1) rest
+
 /-! ### Micro-steps of `_timer`'s control flow -/
 
 structure TCfg where
